@@ -1,6 +1,7 @@
 import Bpmn.Props.C01
 import Bpmn.Props.EngineCurrent
 import Bpmn.Props.C01Conformance
+import Bpmn.Props.C01Chain
 open Bpmn.Props.C01 Bpmn.Props.EngineCurrent Bpmn.Props.C01Conformance
 #print axioms selectFlows_spec
 #print axioms forkToks_spec
@@ -22,3 +23,7 @@ open Bpmn.Props.C01 Bpmn.Props.EngineCurrent Bpmn.Props.C01Conformance
 #print axioms mixed_run_is_neither_ideal_variant
 #print axioms mixed_run_is_a_token_game_run
 #print axioms sticky_start_is_logged
+#print axioms Bpmn.Props.C01Chain.chain_steps
+#print axioms Bpmn.Props.C01Chain.chain_start
+#print axioms Bpmn.Props.C01Chain.chain_conformance
+#print axioms Bpmn.Props.C01Chain.chain_matches_token_game
